@@ -42,9 +42,16 @@ def run(ctx, n=None, par=None):
     n = n or (12 if ctx.quick else 150)
     par = par or (16 if ctx.quick else 64)
     items = []
+    import copy
     for i in range(n):
         cfg = conc_cfg(ctx.rng)
-        names = [x for x in cfg["services"] if x not in ("vctx", "vns", "ns", "vv")]
+        # a contextual service whose scope is declared in the first file while a later file re-opens it (adds a tag): still contextual
+        cfg["services"]["mf"] = {"constructor": "fx.NewA", "arguments": ["mf"], "scope": "contextual", "tags": ["mft"]}
+        if i % 2 == 0:
+            f1 = copy.deepcopy(cfg)
+            del f1["services"]["mf"]["tags"]
+            cfg["__files__"] = [f1, {"services": {"mf": {"tags": ["mft"]}}}]
+        names = [x for x in cfg["services"] if x not in ("vctx", "vns", "ns", "vv", "mf")] + ["mf"]
         ops = [["counters"], ["newctx", "c1"], ["newctx", "c2"], ["newctx", "c3"]]
         for nm in names + ["ns"]:
             ops.append(["par", par, ["get", nm]])
